@@ -30,6 +30,7 @@ func TestC17(t *testing.T) {
 		nowS := nsTime(v.NowNs).Unix()
 		model := map[string]*linAcc{}
 		sentToRecorded := 0
+		sendsToExisting := 0
 		recordedNonVesting := 0
 		var recordedAbsent []sdk.AccAddress // recorded in the genesis file although no account exists there (yet)
 		// freshOrRecorded picks the recipient of a send / split: a never used address or, sometimes, an
@@ -268,10 +269,17 @@ func TestC17(t *testing.T) {
 			"send": func(t *rapid.T) {
 				p := pools[rapid.IntRange(0, len(pools)-1).Draw(t, "pool")]
 				to := freshOrRecorded(t)
+				toExisting := false
+				if len(order) > 0 && rapid.IntRange(0, 4).Draw(t, "toExistingAccount") == 0 {
+					// a vesting account that exists already (possibly of the other lineage): a pool send cannot
+					// create it again, and whatever the module answers its recorded lineage stays what its history says
+					to, toExisting = mustAddr(order[rapid.IntRange(0, len(order)-1).Draw(t, "existing")]), true
+					sendsToExisting++
+				}
 				amt := sdk.NewInt(int64(rapid.IntRange(0, 500).Draw(t, "amt")))
 				res := v.Run(&vestingtypes.MsgSendToVestingAccount{Owner: p.owner.String(), ToAddress: spell(t, to), VestingPoolName: p.name, Amount: amt, RestartVesting: rapid.Bool().Draw(t, "restart")})
-				note("send pool=%s/%s genesis=%v to=%s amt=%s ok=%v", p.owner, p.name, p.genesis, to, amt, res.OK())
-				if res.OK() {
+				note("send pool=%s/%s genesis=%v to=%s(existing=%v) amt=%s ok=%v", p.owner, p.name, p.genesis, to, toExisting, amt, res.OK())
+				if res.OK() && !toExisting {
 					root := "nongenesis"
 					if p.genesis {
 						root = "genesis"
@@ -331,6 +339,9 @@ func TestC17(t *testing.T) {
 		}
 		if maxDepthG >= 4 || maxDepthN >= 4 {
 			cl = append(cl, "chain_depth_ge4")
+		}
+		if sendsToExisting > 0 {
+			cl = append(cl, "pool_send_to_existing_vesting_account")
 		}
 		if sentToRecorded > 0 {
 			cl = append(cl, "recipient_already_recorded_in_genesis")
